@@ -5,14 +5,15 @@ go 1.23
 toolchain go1.23.5
 
 require (
+	github.com/btcsuite/btcd v0.23.2
 	github.com/elastos/Elastos.ELA v0.0.0
+	golang.org/x/crypto v0.17.0
 	pgregory.net/rapid v1.3.0
 )
 
 require (
 	github.com/RainFallsSilent/screw v1.1.1 // indirect
 	github.com/antlabs/strsim v0.0.2 // indirect
-	github.com/btcsuite/btcd v0.23.2 // indirect
 	github.com/btcsuite/btcd/chaincfg/chainhash v1.0.1 // indirect
 	github.com/cpuguy83/go-md2man/v2 v2.0.0-20190314233015-f79a8a8ca69d // indirect
 	github.com/davecgh/go-spew v1.1.1 // indirect
@@ -51,7 +52,6 @@ require (
 	github.com/tidwall/pretty v1.2.0 // indirect
 	github.com/urfave/cli v1.22.5 // indirect
 	github.com/yuin/gopher-lua v0.0.0-20210529063254-f4c35e4016d9 // indirect
-	golang.org/x/crypto v0.17.0 // indirect
 	golang.org/x/sys v0.15.0 // indirect
 	golang.org/x/term v0.15.0 // indirect
 	golang.org/x/text v0.14.0 // indirect
